@@ -11,28 +11,28 @@ def hook_commits():
 CHECKS = {
  # id: (technique, level text, level note, design ref)
  "C01": ("bounded-exhaustive enumeration + property-based generation + coverage-guided fuzzing against a no-panic / heap-bound / CPU-watchdog oracle",
-         "Every truncation and single-byte perturbation of reference encodings of all 40 types, all short buffers, all bodies up to 5 (7) bytes over a 12-symbol alphabet, generated pointer graphs up to 64 KiB and mutated reference encodings are parsed under panic capture, a per-thread heap meter and a thread-CPU watchdog; thorough adds libFuzzer campaigns with the same oracle in-target. Exploration: absence is not established beyond the enumerated bounds.",
+         "Every truncation, single-byte perturbation and RDLENGTH value of reference encodings of all 40 types, messages holding thousands of records of one type, all short buffers, all bodies up to 6 (7) bytes over a 12-symbol alphabet, generated pointer graphs up to 64 KiB and mutated reference encodings are parsed under panic capture, a per-thread heap meter and a thread-CPU watchdog; thorough adds libFuzzer campaigns with the same oracle in-target. Exploration: absence is not established beyond the enumerated bounds.",
          "Heap bound 64 KiB + 1024*len calibrated on the densest legitimate input; time asserted only through the 5 s / 20 s CPU watchdog; inputs capped at 65535 bytes.", "4/C01"),
  "C02": ("property-based round trip: abstract packet -> public constructors -> build_bytes_vec -> parse -> field-by-field observation",
-         "Generated packets over every typed variant, unknown and empty RDATA, binary labels, boundary integers, EDNS, named codes; the parsed packet is observed through public accessors and byte hooks and compared with the generating model, not with the library's own PartialEq.",
+         "Generated packets over every typed variant, unknown and empty RDATA, binary labels, boundary integers, EDNS, named codes, plus packets assembled through the text / map / setter based constructors; the parsed packet is observed through public accessors and byte hooks and compared with the generating model, not with the library's own PartialEq.",
          "Trusts the bridge (checks keyed by field name) and the documented construction domain (exclusions listed in the evidence assumptions).", "4/C02"),
  "C03": ("property-based differential: compressed vs plain serialisation vs model, suffix-sharing names, sizes straddling 16 KiB",
          "Generated suffix-sharing packets with filler that moves names just below / at / above offset 16383 and up to 65535 bytes; compressed and plain outputs must parse to the model and compressed must not be longer.",
          "Same exclusions as C02; large messages are a weighted minority of cases (reported in coverage.classes).", "4/C03"),
  "C04": ("property-based + capacity enumeration: independent envelope walker and byte equality across writer configurations",
-         "Generated packets x {plain, compressed} x {Vec, growable cursor at offset 0/2/k over empty and pre-filled storage, fixed slices and cursors of every capacity 0..len+2}; framing checked by an independent RFC 1035 walker plus the schema decoder.",
+         "Generated packets, packets built through the alternative constructors and packets obtained from the parser x {plain, compressed} x {Vec, growable cursor at offset 0/2/k over empty and pre-filled storage, writers accepting 1/3/7 bytes per call, fixed slices and cursors of every capacity 0..len+2}; framing checked by an independent RFC 1035 walker plus the schema decoder.",
          "Capacity sweep is complete only for 15% of packets up to 600 bytes, 11 boundary capacities otherwise; cursor position after the write is not checked.", "4/C04"),
  "C05": ("property-based differential against an independent RFC 1035 envelope walker + schema decoder confined to each RDLENGTH slice",
-         "Reference encodings with RDLENGTH larger (random or record-shaped surplus) or smaller than the typed content, bumped section counts and mutated encodings; walker failure or content outside its frame => library must reject; library Ok => entries equal the framed entries.",
+         "Reference encodings with RDLENGTH larger (random or record-shaped surplus) or smaller than the typed content, bumped section counts, sections really holding 0..4000 entries, stray and twin OPT records, and mutated encodings; walker failure or content outside its frame => library must reject; library Ok => entries equal the framed entries.",
          "The library may reject for reasons of its own; no claim then. Reference schema is my RFC transcription (anchored on dnspython samples in C10).", "4/C05"),
  "C06": ("bounded-exhaustive enumeration + property-based generation against an independent RFC 1035 4.1.4 name decoder",
-         "Every buffer up to 6 (7) bytes over a 12-symbol alphabet at every start offset, names around 255 bytes, and random label/pointer soups are decoded by the library (hook Name::verif_parse) and by a reference decoder with a visited set; labels, resume offset and error classes are compared.",
+         "Every buffer up to 6 (7) bytes over a 12-symbol alphabet at every start offset, names around 255 bytes, chains of up to 4000 backward hops, every reserved-type octet, random label/pointer soups, and names inside messages of every record type (foreign compression, pointers up to offset 16383) are decoded by the library (hook Name::verif_parse) and by a reference decoder with a visited set; labels, resume offset and error classes are compared.",
          "Forward pointers and chains longer than 32 hops may be refused without claim; exhaustive only within the stated alphabet and length.", "4/C06"),
  "C07": ("property-based with an independent schema-aware pointer walker over compressed output, writers at non-zero origin",
          "Every name occurrence (question, owner, RDATA names by type) of generated compressed messages is located independently; pointers must be backwards, <= 16383, onto a label start of an earlier-written name and relative to the message start; forbidden positions uncompressed; repeated RFC 1035 names compressed.",
          "RP/AFSDB/RT/NSAP-PTR names are accepted compressed or not (statement silent).", "4/C07"),
  "C08": ("exhaustive enumeration of all header words / flag-set pairs against an RFC 1035 bit-layout oracle",
-         "Complete enumeration of the finite input space named by the property (65536 words x ids, 128x128 flag sets, named opcode x rcode x flags); every value is compared with an independently written bit decomposition.",
+         "Complete enumeration of the finite input space named by the property (65536 words x ids, 128x128 flag sets, named opcode x rcode x flags), extended to words followed by an OPT record, opcode/rcode/flags assigned after parsing, 0..5000 entries actually present per section and all writer kinds; every value is compared with an independently written bit decomposition.",
          "Trusts the bit layout typed into checks/c08.rs from RFC 1035 4.1.1; counts are sampled, not enumerated, for the peek functions.", "4/C08"),
  "C09": ("property-based differential against an independent RFC 6891 OPT encoder/decoder, build and parse side",
          "Build side: an independent walker checks the single OPT record (section, ARCOUNT, root owner, CLASS, TTL octets, RDATA, header nibble). Parse side: reference encodings with OPT at any additional index, arbitrary DO/Z bits and 12-bit response codes.",
